@@ -69,6 +69,14 @@ def make_params(ex, c, case, st):
         elif isinstance(tt, dsl.TabT) and tt.opt:
             present = set(tt.cols) - {oc for oc in tt.opt if not case.get("%s.%s" % (name, oc), ("col", True))[1]}
         env[name] = ex.fresh_value(tt, name, st, cols_present=present)
+    # a Series parameter declared `like="other"` carries the index (and length) of that other parameter
+    for name, t in c.params.items():
+        like = getattr(t, "like", None)
+        if like is not None and isinstance(env.get(name), Ref) and env.get(like) is not None:
+            tok, n = ex.index_of(env[like], st)
+            v = st.get(env[name])
+            if isinstance(v, Vec):
+                st.put(env[name], v.with_(idx=tok, n=n))
     return env
 
 
@@ -205,11 +213,20 @@ def finish_path(ex, c, env, entry, o, is_gen):
         if kname.startswith("view_"):
             senv[kname] = v
     sel = getattr(ex.ctx, "clause_sel", None)
+    if c.ghost.get("locals_visible"):
+        # the function's local variables at exit, readable in clauses as local_<name> (for stepping-stone clauses)
+        for lname, lval in o.env.items():
+            if isinstance(lname, str) and lname not in senv:
+                senv["local_" + lname] = lval
+    chain = bool(c.ghost.get("chain_ensures"))
     for lab, text in c.ensures:
         if sel and ((sel[0] == "skip" and lab in sel[1]) or (sel[0] == "only" and lab not in sel[1])):
             continue
         f = ex.spec_formula(text, senv, o, old_st=entry)
         ex.oblig("post", lab, o, _b(f))
+        if chain:
+            # cut rule: a clause that has its own obligation may be used to prove the clauses after it
+            o.assume(_b(f))
     if sel and sel[0] == "only":
         return
     # frame: every heap object reachable from a parameter and not in `modifies` is unchanged
